@@ -190,8 +190,8 @@ static bool apply_fault(std::string &b, int kind, uint64_t x, uint64_t y, uint64
                     default: b.erase(p, 1); break;
                 }
             } else {
-                static const char bad[] = "xaveUN0'q ";
-                b[p + 1] = bad[y % 10];
+                static const char bad[] = {'x', 'a', 'v', 'e', 'U', 'N', '0', '\'', 'q', ' ', '\0', '\0'};   // incl. a zero byte after the backslash
+                b[p + 1] = bad[y % 12];
             }
             return true;
         }
@@ -226,7 +226,12 @@ static bool apply_fault(std::string &b, int kind, uint64_t x, uint64_t y, uint64
             return true;
         }
         case 17: { char c = (char)(1 + y % 0x20); b.insert(x % (n + 1), 1, c); return true; }
-        case 18: b.insert(x % (n + 1), 1, '\0'); return true;
+        case 18: {
+            // a zero byte anywhere, or (a quarter of the time) right after a backslash of a string body
+            if ((y % 4) == 0) { auto v = positions(b, "\\"); if (!v.empty()) { b.insert(v[x % v.size()] + 1, 1, '\0'); return true; } }
+            b.insert(x % (n + 1), 1, '\0');
+            return true;
+        }
         case 20: {
             // a run of truncated / bare escapes inside a string body that keeps its closing quote
             auto v = positions(b, "\"");
